@@ -7,25 +7,25 @@ Local Open Scope N_scope.
 
 (* from_str: whenever the value has been read and the stream still delivers an event, the result
    is MultipleDocuments -- never the first document's value *)
-Lemma single_rejects_second fuel o t items v s r e s' r' :
-  deser fuel (eo_cfg o) false t (SLive (live_new (eo_budget o) false (eo_limits o) false) items) = DOk v (SLive s r) ->
+Lemma single_rejects_second fuel o t items v s r op e s' r' :
+  deser fuel (eo_cfg o) false t (SLive (live_new (eo_budget o) false (eo_limits o) false) items 0) = DOk v (SLive s r op) ->
   live_peek s r = Yield e s' r' ->
   from_str_model fuel o t items = OErr (Err E_MultipleDocuments (lv_last s')).
 Proof. intros Hd Hp. unfold from_str_model. rewrite Hd, Hp. reflexivity. Qed.
 
 Lemma single_accepts_only_at_end fuel o t items v :
   from_str_model fuel o t items = OOk v ->
-  exists s r, deser fuel (eo_cfg o) false t (SLive (live_new (eo_budget o) false (eo_limits o) false) items) = DOk v (SLive s r)
+  exists s r op, deser fuel (eo_cfg o) false t (SLive (live_new (eo_budget o) false (eo_limits o) false) items 0) = DOk v (SLive s r op)
     /\ (forall e s' r', live_peek s r <> Yield e s' r').
 Proof.
   unfold from_str_model. destruct (deser _ _ _ _ _) as [v' x|e|] eqn:Hd; try discriminate.
-  - destruct x as [s r|]; [|discriminate].
+  - destruct x as [s r op|]; [|discriminate].
     destruct (live_peek s r) as [e s' r'|s' r'|e s' r'] eqn:Hp; try discriminate.
     + destruct (live_finish s') as [rep [e'|]]; [discriminate|]. intros H; inversion H; subst.
-      exists s, r. split; [reflexivity|]. intros ? ? ? Hc; rewrite Hp in Hc; discriminate.
+      exists s, r, op. split; [reflexivity|]. intros ? ? ? Hc; rewrite Hp in Hc; discriminate.
     + destruct (lv_seen_doc_end s'); [|discriminate].
       destruct (live_finish s') as [rep [e'|]]; [discriminate|]. intros H; inversion H; subst.
-      exists s, r. split; [reflexivity|]. intros ? ? ? Hc; rewrite Hp in Hc; discriminate.
+      exists s, r, op. split; [reflexivity|]. intros ? ? ? Hc; rewrite Hp in Hc; discriminate.
   - destruct (synthesized_first _ _); discriminate.
 Qed.
 
@@ -42,13 +42,13 @@ Proof. intros Hp Hn. cbn [from_multiple_loop]. rewrite Hp, Hn. reflexivity. Qed.
 
 Lemma batch_first_error_wins f o t s rest e s' rest' acc er :
   live_peek s rest = Yield e s' rest' -> ev_scalar_nullish e = false ->
-  deser f (eo_cfg o) false t (SLive s' rest') = DErr er ->
+  deser f (eo_cfg o) false t (SLive s' rest' 0) = DErr er ->
   from_multiple_loop (S f) o t s rest acc = MErr er.
 Proof. intros Hp Hn Hd. cbn [from_multiple_loop]. rewrite Hp, Hn, Hd. reflexivity. Qed.
 
 Lemma batch_collects f o t s rest e s' rest' acc v s2 r2 :
   live_peek s rest = Yield e s' rest' -> ev_scalar_nullish e = false ->
-  deser f (eo_cfg o) false t (SLive s' rest') = DOk v (SLive s2 r2) ->
+  deser f (eo_cfg o) false t (SLive s' rest' 0) = DOk v (SLive s2 r2 0) ->
   from_multiple_loop (S f) o t s rest acc = from_multiple_loop f o t s2 r2 (v :: acc).
 Proof. intros Hp Hn Hd. cbn [from_multiple_loop]. rewrite Hp, Hn, Hd. reflexivity. Qed.
 
@@ -78,7 +78,7 @@ Proof. unfold skip_to_next_document. intros H. apply skip_go_shrinks in H. destr
 
 Lemma iterator_ends_when_skip_fails f o t s rest e s' rest' er :
   live_peek s rest = Yield e s' rest' -> ev_scalar_nullish e = false ->
-  deser f (eo_cfg o) false t (SLive s' rest') = DErr er ->
+  deser f (eo_cfg o) false t (SLive s' rest' 0) = DErr er ->
   fst (fst (skip_to_next_document s' (resume_point er rest'))) = false ->
   read_iter (S f) o t s rest = inl [IErr er].
 Proof.
